@@ -224,6 +224,24 @@ def rand_pair(rng, i):
         xs = [10.0, 40.0, 70.0, 100.0] if rng.random() < 0.5 else [100.0, 70.0, 40.0, 10.0]
         apts = [(x, y0 + y) for x, y in zip(xs, ys)]
         return apts, [(0.0, y0), (150.0, y0)]
+    if order == 4 and r < 0.12:
+        # a cubic with a small hook next to one end (a y- or x-extreme within the first or last 1 % of the parameter range, which the
+        # reported bounding box ignores) and a SHORT line that crosses the hook twice, lying entirely in the sliver the box does not cover
+        a, b = rng.uniform(60, 140), rng.uniform(8, 25)
+        apts = [(0.0, 0.0), (a, -b), (rng.uniform(150, 250), rng.uniform(600, 1200)), (rng.uniform(250, 350), rng.uniform(500, 1000))]
+        t0 = rng.uniform(0.001, 0.004)
+        dlt = rng.uniform(0.004, 0.012)
+        p = oc.bern_pt(apts, F(t0))
+        q = oc.bern_pt(apts, F(t0 + dlt))
+        p, q = (float(p[0]), float(p[1])), (float(q[0]), float(q[1]))
+        k = rng.uniform(0.3, 2.0)
+        lpts = [(p[0] - k * (q[0] - p[0]), p[1] - k * (q[1] - p[1])), (q[0] + k * (q[0] - p[0]), q[1] + k * (q[1] - p[1]))]
+        if rng.random() < 0.5:
+            apts, lpts = [(y, x) for x, y in apts], [(y, x) for x, y in lpts]
+        if rng.random() < 0.5:
+            apts = apts[::-1]
+        o = (float(rng.randint(-200, 200)), float(rng.randint(-200, 200)))
+        return [(x + o[0], y + o[1]) for x, y in apts], [(x + o[0], y + o[1]) for x, y in lpts]
     if order > 2 and r < 0.25:
         # a line through two nearby points of the curve: two crossings close together (the aligned polynomial is close to a double root)
         t0 = rng.uniform(0.1, 0.85)
